@@ -2,6 +2,19 @@ HOOK_COMMITS = ["d197d80"]
 NOTES = "All checks are generated-input search (proptest choice sequences, exhaustive small-domain enumeration) against explicit oracles; see DESIGN.md. Exit 2 = inconclusive (build failure / watchdog), never a violation."
 NOT_CLAIMED = {}
 CLAIMED = {
+ "C11": {
+  "technique": "property-based testing of generated regexes against a position-set reference matcher + exhaustive wildcard patterns against a DP reference + metamorphic size-limit checks",
+  "text": "Exploration: regexes from a subset grammar (literals incl. escapes and \\xHH, ., classes with ranges/negation/quotes, ?*+, alternation, groups, ^ $) written quoted and raw: the AST carries exactly the pattern and the match result equals an independent position-set matcher on ~13 values each (non-UTF-8, newlines, case flips, empty); every wildcard pattern over {a,B,*,\\,?} up to length 6 (quick) / 8 (thorough) in quoted/escaped/raw forms, both operators, star limits 0..4: rejected exactly for invalid escapes, trailing backslash, ** and too many stars, accepted ones agree with a DP matcher (ASCII case folding iff not strict); regex size limits behave monotonically.",
+  "note": "Nested character classes and a leading ] in a class are not generated (the quoted scanner's treatment is unspecified); size thresholds are only checked for monotonicity, default-accepts and one impossibility bound.",
+  "ref": "DESIGN.md section 3, C11",
+ },
+ "C13": {
+  "technique": "exhaustive enumeration of nesting shapes x limits + random deep shapes + child-process stack-budget runs",
+  "text": "Exploration: every sequence over {parenthesis, not, any/all, call} up to length 6 (quick) / 9 (thorough), typed through four adapter functions, in 4 spellings, and shapes with the deep path in each call-argument / quantifier / chain-operand position, against limits 0..8: accepted exactly when the nesting is within the limit (otherwise rejected, with the nesting error unless a hex-like function name routes the argument through the parser's fallback); random shapes at depth d-1, d, d+1 for d in {16, 64, 128 default, 129, 200}, also through parse_value; accepted filters at the limit are parsed, serialised, hashed, cloned, compiled, executed and dropped on a thread with 64 KiB of stack per level in a child process.",
+  "note": "Stack budget 64 KiB x (d+8) has > 20x headroom over the measured need in the harness profile; an abnormal child exit is a violation.",
+  "ref": "DESIGN.md section 3, C13",
+ },
+
  "C08": {
   "technique": "model-based (stateful) property testing: generated operation histories interpreted against live contexts and an abstract typed-map model",
   "text": "Exploration: histories of up to 40 (quick) / 120 (thorough) operations (set by field of the own / cloned / twin scheme, set by name incl. unknown and near-miss names, get, clear, clone_with, nested borrow_with + drop, take_with, list-matcher updates, filter and value execution for own and foreign schemes) over generated schemes; after every step every live context is read back in full and compared (==) with a freshly built expected context; set outcomes (previous value, error variant, no change on failure) follow the model; separate constructor checks (Array::try_from_iter/try_from_vec, Map::try_from_iter, TypedArray/TypedMap) accept exactly homogeneous element lists.",
